@@ -83,6 +83,9 @@ class GhostFS:
         S(r'^FileType::is_file$',lambda e,run,a,f: Bool(deref(a[0]).p=='file'),'FileType::is_file')
         S(r'^FileType::is_dir$',lambda e,run,a,f: Bool(deref(a[0]).p=='dir'),'FileType::is_dir')
         S(r'^(std::fs::)?File::open$',self.open,'std::fs::File::open [ghost file system]')
+        S(r'^(std::fs::)?File::metadata$',self.file_meta,'std::fs::File::metadata [ghost file system]')
+        S(r'^(std::fs::)?Metadata::(modified|created|accessed)$',self.modified,'std::fs::Metadata::modified [ghost: one free instant per file state; a command that rewrites a file may leave it unchanged]')
+        S(r'^<(std::time::)?SystemTime as (std::cmp::)?PartialEq>::(eq|ne)$',self.time_eq,'SystemTime == SystemTime')
         S(r'^BufReader::new$',lambda e,run,a,f: a[0],'std::io::BufReader::new')
         S(r' as (std::io::)?Read>::read$',self.read,'std::io::Read::read [nondeterministic chunking of the ghost file content]')
     def resolve(self,run,p):
@@ -140,12 +143,24 @@ class GhostFS:
     def meta(self,e,run,a,f):
         p=need_conc(pb_bytes(a[0]),'metadata path').decode(); k=self.kind(run,p)
         if k is None: return err(Opaque('io::Error','not found'))
-        return ok(Opaque('Metadata',(k,self.size(run,p,k))))
+        return ok(Opaque('Metadata',(k,self.size(run,p,k),p)))
     def meta_follow(self,e,run,a,f):
         p=self.resolve(run,need_conc(pb_bytes(a[0]),'metadata path').decode())
         k=self.kind(run,p) if p is not None else None
         if k is None: return err(Opaque('io::Error','not found'))
-        return ok(Opaque('Metadata',(k,self.size(run,p,k))))
+        return ok(Opaque('Metadata',(k,self.size(run,p,k),p)))
+    def file_meta(self,e,run,a,f):
+        fo=deref(a[0]); p=fo.p['path']
+        return ok(Opaque('Metadata',('file',len(run.ghost['fs'][p]),p)))
+    def modified(self,e,run,a,f):
+        m=deref(a[0]).p
+        if len(m)<3: raise Unsupported('modification time of '+repr(m)[:60])
+        mt=run.ghost.setdefault('mtime',{})
+        if m[2] not in mt: mt[m[2]]=z3.BitVec('mtime_'+m[2],64)       # a free instant per file (equal instants of different files are possible)
+        return ok(Agg('SystemTime',[Int(64,False,mt[m[2]])]))
+    def time_eq(self,e,run,a,f):
+        x=deref(deref(a[0])); y=deref(deref(a[1])); r=e.binop('Eq',x.f[0],y.f[0])
+        return r if f.endswith('eq') else b_not(r)
     def read_link(self,e,run,a,f):
         p=need_conc(pb_bytes(a[0]),'read_link path').decode()
         if p not in run.ghost.get('links',{}): return err(Opaque('io::Error','not a link'))
@@ -322,4 +337,70 @@ class RunSequencing(Obligation):
         r,m=run.check_sat(z3.Not(conds.z()))
         if r==z3.sat: return V('link_differs_from_recorded_results','the link does not carry exactly the recorded materials, products, byproducts and the name')
         if 'link_built' not in self.seen: self.seen.add('link_built'); rec['wit'].append('link_built')
+        return rec
+
+class RunOnGhostFS(Obligation):
+    """in_toto_run from MIR on the ghost file system with a ghost command that changes files: materials are the digests of the
+    files as they were BEFORE the command, products the digests of the files as they are AFTER it"""
+    name='C18.in_toto_run_on_a_changing_tree'
+    hash_order='fixed'
+    EFFECTS=['none','rewrite_same_length','rewrite_longer','delete','create']
+    def __init__(self,seed=0,known=(),**kw):
+        self.seed=seed
+        self.bounds={'ghost file system':'d/a (2 free bytes), d/b (1 free byte); material and product paths both [d]','command effect':'nothing / d/a rewritten with two other free bytes / d/a rewritten one byte longer / d/b deleted / d/c created',
+                     'modification times':'one free instant per file state: a rewritten file may carry the same modification time as before (coarse timestamps, `touch -r`, `cp -p`)','read schedule':'whole-file reads (chunking is varied by C18.record_artifacts)','key':'none (unsigned link)'}
+        self.witnesses=['link_'+x for x in self.EFFECTS]; self.seen=set()
+    def setup(self,eng,tier):
+        self.eng=eng; self.b=B(eng); self.fs=GhostFS(eng,self.b); self.fn=eng.find_fn('in_toto_run'); b=self.b
+        from mirsym import models as M
+        orig_finish=M.m_digest_finish
+        def finish(e,run,a,f):
+            r=orig_finish(e,run,a,f); run.ghost['digests'].append(r.p); return r
+        eng.stub(r'^(ring::)?digest::Context::finish$',finish,'ring::digest::Context::finish [injective digest model, records the pre-image]')
+        def read_whole(e,run,a,f):
+            fo=deref(a[0]); st=fo.p; content=run.ghost['fs'][st['path']]; buf=deref(a[1]); rem=len(content)-st['pos']
+            for i in range(rem): buf.items[i]=Int(8,False,content[st['pos']+i])
+            st['pos']+=rem; return ok(Int(64,False,rem))
+        eng.stub(r' as (std::io::)?Read>::read$',read_whole,'std::io::Read::read [whole remaining content of the ghost file]')
+        def run_cmd(e,run,a,f):
+            run.ghost['pre']=dict(run.ghost['fs']); fs=dict(run.ghost['fs']); mt=dict(run.ghost['mtime']); eff=run.ghost['effect']
+            if eff=='rewrite_same_length': fs['d/a']=[z3.BitVec('na0',8),z3.BitVec('na1',8)]; mt['d/a']=z3.BitVec('mt_a2',64)
+            if eff=='rewrite_longer': fs['d/a']=[z3.BitVec('na0',8),z3.BitVec('na1',8),z3.BitVec('na2',8)]; mt['d/a']=z3.BitVec('mt_a2',64)
+            if eff=='delete': del fs['d/b']
+            if eff=='create': fs['d/c']=[z3.BitVec('nc0',8)]; mt['d/c']=z3.BitVec('mt_c',64)
+            run.ghost['fs']=fs; run.ghost['mtime']=mt
+            return ok(b.byproducts(Int(32,True,0),'',''))
+        eng.stub(r'^run_command$',run_cmd,'runlib::run_command [ghost command: changes the ghost file system]')
+    def entry(self,eng): return self.fn
+    def mk_args(self,run):
+        eff=self.EFFECTS[run.pick(len(self.EFFECTS),'effect')]
+        fs={'d/a':[z3.BitVec('a0',8),z3.BitVec('a1',8)],'d/b':[z3.BitVec('b0',8)]}
+        run.ghost.update({'fs':fs,'links':{},'opened':[],'digests':[],'io_error_at':None,'effect':eff,'mtime':{'d/a':z3.BitVec('mt_a',64),'d/b':z3.BitVec('mt_b',64)}})
+        mk=lambda l: Ref(Cell(VecO([mk_str(x) for x in l])))
+        return [mk_str('step'),none(),mk(['d']),mk(['d']),mk(['cmd']),none(),none(),none()],{'pre':dict(fs),'effect':eff}
+    def check(self,run,out,g):
+        oc=outcome_of(out); rec={'outcome':oc,'viol':None,'wit':[],'sample':None,'obl':1}; b=self.b
+        post=run.ghost['fs']
+        def scn(m):
+            mv=lambda c: [model_value(m,x) for x in c]
+            return {'kind':'run_fs','pre':{p:mv(c) for p,c in g['pre'].items()},'post':{p:mv(c) for p,c in post.items()},'keep_mtime':True}
+        r0,m0=run.check_sat(z3.BoolVal(True))
+        def V(kind,what,m=m0,**kw): rec['viol']=dict({'kind':kind,'known_key':None,'scenario':scn(m),'predicted':'ok','what':what},**kw); return rec
+        if oc=='panic': return V('panic','in_toto_run panics: '+str(out[1]),predicted='panic')
+        if oc!='ok': return V('spurious_error','in_toto_run fails although every file is readable',predicted={'not':'ok'})
+        link=deref(b.get(deref(out[1]).f[0],'metadata')).f[0]
+        for field,want in (('materials',g['pre']),('products',post)):
+            got={need_conc(byte_list(k),'artifact key').decode():v for k,v in deref(b.get(link,field)).e}
+            if set(got)!=set(want): return V('wrong_key_set','%s are %s, the files %s are %s'%(field,sorted(got),'before the command' if field=='materials' else 'after the command',sorted(want)),confirm={field+'_ok':False})
+            for key,content in want.items():
+                for ak,hv in deref(got[key]).e:
+                    hb=byte_list(hv)
+                    src=[d for d in run.ghost['digests'] if len(d.b)==len(hb) and all((isinstance(x,int) and isinstance(y,int) and x==y) or (not isinstance(x,int) and not isinstance(y,int) and x.eq(y)) for x,y in zip(d.b,hb))]
+                    if not src: return V('digest_of_unknown_origin','a recorded digest is not the output of a digest computation')
+                    r,m=run.check_sat(z3.Not(bytes_eq(src[0].ghost['pre'],content).z()))
+                    if r==z3.sat:
+                        return V('stale_or_wrong_digest','the %s digest of %s is not the digest of the bytes the file holds %s'%(field[:-1],key,'before the command' if field=='materials' else 'after the command'),m=m,confirm={field+'_ok':False})
+        w='link_'+g['effect']
+        if w not in self.seen: self.seen.add(w); rec['wit'].append(w)
+        rec['sample']={'scenario':scn(m0),'expect':'ok','confirm':{'materials_ok':True,'products_ok':True}}
         return rec
